@@ -23,7 +23,11 @@ import (
 	"github.com/protomaps/go-pmtiles/pmtiles"
 )
 
+// A call is released in one step ("ok" or a fault kind) or in two: outcome "hold" makes the bucket take its decision NOW (which
+// version it reads, whether the tag still matches) and deliver the result only when the call, listed again with the suffix #held, is
+// released a second time - a read that takes effect before a replacement and returns after it.
 type gateCall struct {
+	held     bool
 	key      string
 	off, len int64
 	etag     string
@@ -85,6 +89,25 @@ func (g *gateBucket) NewRangeReaderEtag(ctx context.Context, key string, off, l 
 	atomic.AddInt64(&g.activity, 1)
 	outcome := <-c.release
 	atomic.AddInt64(&g.activity, 1)
+	if outcome == "hold" {
+		r, tag, st, err := g.answer(key, off, l, etag, "ok")
+		g.mu.Lock()
+		c.held = true
+		g.pending = append(g.pending, c)
+		g.mu.Unlock()
+		atomic.AddInt64(&g.activity, 1)
+		<-c.release
+		atomic.AddInt64(&g.activity, 1)
+		return r, tag, st, err
+	}
+	if ctx.Err() != nil { // a bucket honours the context of the call (the HTTP and cloud backends do): the caller went away
+		return nil, "", 499, ctx.Err()
+	}
+	return g.answer(key, off, l, etag, outcome)
+}
+
+// answer: what the bucket says at this instant
+func (g *gateBucket) answer(key string, off, l int64, etag string, outcome string) (io.ReadCloser, string, int, error) {
 	g.mu.Lock()
 	defer g.mu.Unlock()
 	switch outcome {
@@ -143,7 +166,7 @@ func (g *gateBucket) pendingList() []string {
 	defer g.mu.Unlock()
 	var out []string
 	for _, c := range g.pending {
-		out = append(out, fmt.Sprintf("%s/%s/%d/%d", strings.TrimSuffix(c.key, ".pmtiles"), c.etag, c.off, c.len))
+		out = append(out, c.args())
 	}
 	sort.Strings(out)
 	return out
@@ -152,12 +175,19 @@ func (g *gateBucket) pendingList() []string {
 // releaseCall lets every call blocked with exactly these arguments proceed with the given outcome. Calls with identical arguments are
 // issued by goroutines racing after one loop message, so their order at the gate is not determined by the schedule; releasing them
 // together keeps the observable deterministic (readers of one tile are interchangeable, a metadata and a TileJSON reader are not).
+func (c *gateCall) args() string {
+	a := fmt.Sprintf("%s/%s/%d/%d", strings.TrimSuffix(c.key, ".pmtiles"), c.etag, c.off, c.len)
+	if c.held {
+		a += "#held"
+	}
+	return a
+}
 func (g *gateBucket) releaseCall(args string, outcome string) bool {
 	g.mu.Lock()
 	var hit []*gateCall
 	var rest []*gateCall
 	for _, c := range g.pending {
-		if fmt.Sprintf("%s/%s/%d/%d", strings.TrimSuffix(c.key, ".pmtiles"), c.etag, c.off, c.len) == args {
+		if c.args() == args {
 			hit = append(hit, c)
 		} else {
 			rest = append(rest, c)
@@ -228,7 +258,9 @@ func allBlocked(stack []byte) bool {
 			state = state[:j]
 		}
 		switch state {
-		case "chan receive", "chan send", "select", "sync.Cond.Wait", "IO wait", "select (no cases)", "chan receive (nil chan)":
+		case "chan receive", "chan send", "select", "sync.Cond.Wait", "IO wait", "select (no cases)", "chan receive (nil chan)",
+			"semacquire", "sync.WaitGroup.Wait", "sync.Mutex.Lock", "sync.RWMutex.Lock", "sync.RWMutex.RLock":
+			// parked on a sync primitive: it can only move when another goroutine does, and that one is judged on its own state
 		default:
 			return false
 		}
@@ -423,12 +455,15 @@ func (sr *srvRun) remove(name int) {
 	sr.step++
 }
 func (sr *srvRun) start(name int, z, x, y uint64, ext int) {
+	sr.startCtx(context.Background(), name, z, x, y, ext)
+}
+func (sr *srvRun) startCtx(ctx context.Context, name int, z, x, y uint64, ext int) {
 	r := &srvReq{rid: len(sr.reqs), name: name, z: z, x: x, y: y, ext: ext, startStep: sr.step}
 	sr.reqs = append(sr.reqs, r)
 	path := fmt.Sprintf("/a%d/%d/%d/%d.%s", name, z, x, y, extNames[ext])
 	atomic.AddInt64(&sr.gate.activity, 1)
 	go func() {
-		st, hd, body := sr.srv.Get(context.Background(), path)
+		st, hd, body := sr.srv.Get(ctx, path)
 		sr.mu.Lock()
 		r.status, r.body, r.done = st, body, true
 		r.hdrs = hd["Content-Type"] + "|" + hd["Content-Encoding"]
